@@ -29,6 +29,8 @@ def weight(job):
     if job.get('kind') == 'custom' and job.get('func') == 'run_clone_job':
         return {0: 0.1, 1: 0.5, 2: 8, 3: 150}.get(job['N'], 1000)
     if job.get('kind') == 'custom' and job.get('module') == 'kanileaf': return 500
+    if job.get('kind') == 'custom' and job.get('func') == 'run_de_history_job':
+        return {2: 3, 3: 40, 4: 300, 5: 900}.get(job['N'], 1000)
     if job.get('kind') == 'custom' and job.get('func') == 'run_history_job':
         return {1: 0.3, 2: 3, 3: 12, 4: 80}.get(job['N'], 500) * (4 if job.get('final_ops') else 1) * (8 if job.get('final_ops') and job['N'] >= 3 else 1)
     if job.get('kind') == 'custom' and job.get('module') == 'pretty':
@@ -100,6 +102,13 @@ def iter_jobs(prop, tier):
         if prop == 'C10' and N <= (4 if tier == 'quick' else 5):
             for name in iters.DE:
                 jobs.append({'kind': 'deiter', 'name': name, 'op': name + '_pulls', 'N': N, 'cfg': 'dev', 'feat': 'std', 'props': [prop]})
+    if prop == 'C10':
+        # the double-ended iterators on the forest a checked insert leaves behind (quick: N <= 3; thorough also N = 4 and one argument pair at N = 5)
+        for opm in ('checked_append', 'checked_prepend', 'checked_insert_after', 'checked_insert_before'):
+            for N in ((2, 3) if tier == 'quick' else (2, 3, 4)):
+                jobs.append({'kind': 'custom', 'module': 'iters', 'func': 'run_de_history_job', 'name': 'de_after_' + opm, 'op': 'de_after_' + opm, 'op_mut': opm, 'N': N, 'cfg': 'dev', 'feat': 'std', 'props': [prop]})
+            if tier == 'thorough':
+                jobs.append({'kind': 'custom', 'module': 'iters', 'func': 'run_de_history_job', 'name': 'de_after_' + opm, 'op': 'de_after_' + opm, 'op_mut': opm, 'N': 5, 'fix_t': 1, 'fix_x': 2, 'cfg': 'dev', 'feat': 'std', 'props': [prop]})
     if tier == 'thorough' and prop in ('C02', 'C09'):
         for name in ['ancestors', 'predecessors', 'preceding_siblings', 'following_siblings', 'children', 'reverse_children']:
             jobs.append({'kind': 'iter', 'name': name, 'op': name, 'N': 6, 'cfg': 'dev', 'feat': 'std', 'props': [prop]})
